@@ -1,5 +1,6 @@
 """Helpers shared by the property modules of the pure layer."""
-import itertools, json
+import itertools, json, os
+_REPO = os.environ.get("VERIF_REPO", "/repo")
 from harness.charclass import char_class, strings_of
 from harness.impl.render import run_impl as _run_impl
 
@@ -8,6 +9,47 @@ ASSUME_PY = [
     "A-STR: str.split, str.expandtabs, str.format({:d}), sorted(str), list slice assignment as modelled",
     "character classes (str.isspace, regex \\w and [^\\d\\W], int() whitespace, decimal values) are computed by Python per case and passed to the model as parameters",
 ]
+
+
+def module_state_scan():
+    """names assigned at module level or through `global` in the rendering modules (beyond imports, classes, functions, __all__, log)"""
+    import ast
+    bad = []
+    for f in (_REPO + "/simpleline/render/widgets.py", _REPO + "/simpleline/render/containers.py"):
+        tree = ast.parse(open(f).read())
+        for node in tree.body:
+            if isinstance(node, (ast.Assign, ast.AugAssign, ast.AnnAssign)):
+                names = [t.id for t in (node.targets if isinstance(node, ast.Assign) else [node.target]) if isinstance(t, ast.Name)]
+                if any(n not in ("__all__", "log") for n in names): bad.append((f, names))
+        for node in ast.walk(tree):
+            if isinstance(node, (ast.Global, ast.Nonlocal)): bad.append((f, node.names))
+            if isinstance(node, ast.FunctionDef):
+                for d in node.args.defaults + node.args.kw_defaults:
+                    if isinstance(d, (ast.List, ast.Dict, ast.Set, ast.Call)): bad.append((f, "mutable default in " + node.name))
+    return bad
+
+
+def structure():
+    """structural part of the correspondence of the pure layer: the model renders with functions of (content, width); the rendering modules must keep no
+    module-level or default-argument state that a render could read or write"""
+    return ["module-level / default-argument state in the rendering modules: %s %r" % (f.split("/")[-1], n) for f, n in module_state_scan()]
+
+
+def structure_search(problems, rnd):
+    """search for a failing input when the structure check trips: two threads render unrelated text widgets at different widths at the same time (the library itself
+    renders the prompt in the input thread while the main loop draws); every rendering must equal the one the same widget gives alone"""
+    from harness.impl.render import run_impl
+    for _ in range(3):
+        case = {"op": "render_race", "texts": ["word " * 30, "another text of several words " * 8], "widths": [rnd.choice([12, 20]), rnd.choice([61, 78])], "rounds": 1500}
+        o = run_impl(case)
+        if o["mismatches"]:
+            return case, o, race_verdict(case, o)
+    return None
+
+
+def race_verdict(case, o):
+    if not o["mismatches"]: return None
+    return "rendered at the same time as another widget in another thread, a text widget of width %d shows %r; alone it shows %r" % (o["first"]["width"], o["first"]["got"][:3], o["first"]["alone"][:3])
 
 
 def with_cc(case):
@@ -20,14 +62,60 @@ def run_impl(case):
     return _run_impl(case)
 
 
+def expand_refs(spec):
+    """["ref", j] (the same object as sibling j) is, for the value-semantics model, a second copy of sibling j"""
+    if not isinstance(spec, list) or not spec: return spec
+    if spec[0] in ("window", "list"):
+        ki = 2 if spec[0] == "window" else 6
+        kids = []
+        for x in spec[ki]:
+            kids.append(kids[x[1]] if x[0] == "ref" else expand_refs(x))
+        return spec[:ki] + [kids] + spec[ki + 1:]
+    if spec[0] == "center": return ["center", expand_refs(spec[1])]
+    return spec
+
+
 def model_case(case):
     c = {k: v for k, v in case.items() if k not in ("rawkey", "_tag")}
+    if c.get("op") == "tree":
+        c["tree"] = expand_refs(c["tree"])
+        c["ops"] = [[o[0], o[1], expand_refs(o[2])] if o[0] == "add_at" else [o[0], expand_refs(o[1])] if o[0] == "add" else o for o in c["ops"]]
+    if c.get("op") == "keytree":
+        c["tree"] = expand_refs(c["tree"]); c.pop("raise_on", None)
+    if c.get("op") == "gridseq":
+        # a source object drawn a second time shows what it showed the first time (drawing does not change the source)
+        steps = []
+        for st in c["steps"]:
+            st = dict(st)
+            if st.get("src_ref") is not None: st["src"] = steps[st["src_ref"]]["src"]
+            st.pop("src_ref", None); steps.append(st)
+        c["steps"] = steps
     if c.get("op") == "prompt":
         c["ops"] = [o[:3] for o in c["ops"]]
     return c
 
 
+def tree_compare(case, impl, model):
+    """render by render; an object that occurs twice in the real tree reports None for its own lines (it shows its last rendering only); a model answer
+    OutOfDomain (negative draw column) ends the comparison"""
+    for k, (a, b) in enumerate(zip(impl, model)):
+        if b.get("err") == "OutOfDomain": return None
+        if "nodes" in a and "nodes" in b and len(a["nodes"]) == len(b["nodes"]):
+            a = dict(a, nodes=[m if x is None else x for x, m in zip(a["nodes"], b["nodes"])])
+        if a != b:
+            if {k_: v for k_, v in a.items() if k_ != "nodes"} == {k_: v for k_, v in b.items() if k_ != "nodes"}:
+                j = next(i for i, (x, y) in enumerate(zip(a["nodes"], b["nodes"])) if x != y) if len(a["nodes"]) == len(b["nodes"]) else -1
+                return "render #%d: the widgets agree but descendant #%d (preorder) shows %r afterwards on the implementation, %r in the model" % (k, j, a["nodes"][j] if j >= 0 else a["nodes"], b["nodes"][j] if j >= 0 else b["nodes"])
+            return "render #%d: implementation %r / model %r" % (k, {k_: v for k_, v in a.items() if k_ != "nodes"}, {k_: v for k_, v in b.items() if k_ != "nodes"})
+    return None
+
+
 def plain_compare(case, impl, model):
+    if case.get("op") == "gridseq":
+        if impl["steps"] != model: return "implementation %s  /  model %s" % (json.dumps(impl["steps"], ensure_ascii=False)[:600], json.dumps(model, ensure_ascii=False)[:600])
+        return None
+    if case.get("op") == "tree" and isinstance(impl, list) and isinstance(model, list) and len(impl) == len(model):
+        return tree_compare(case, impl, model)
     if impl != model:
         return "implementation %s  /  model %s" % (json.dumps(impl, ensure_ascii=False)[:600], json.dumps(model, ensure_ascii=False)[:600])
     return None
